@@ -282,12 +282,18 @@ func (s *Summaries) objectState(fn *ssa.Function, tm *Termer, named *types.Named
 			if ia, ok := x.Addr.(*ssa.IndexAddr); ok {
 				if f := fieldLoadedFrom(ia.X, base); f != nil {
 					events = append(events, fieldEvent{in: in, field: f, elems: tm.Of(x.Val)})
+				} else if f := fieldHolding(fn, ia.X, base); f != nil {
+					events = append(events, fieldEvent{in: in, field: f, elems: tm.Of(x.Val)})
 				}
 			}
 		case ssa.CallInstruction:
 			c := x.Common()
 			if b, ok := c.Value.(*ssa.Builtin); ok && b.Name() == "copy" && len(c.Args) == 2 {
-				if f := fieldLoadedFrom(c.Args[0], base); f != nil {
+				f := fieldLoadedFrom(c.Args[0], base)
+				if f == nil {
+					f = fieldHolding(fn, c.Args[0], base)
+				}
+				if f != nil {
 					events = append(events, fieldEvent{in: in, field: f, elems: &Term{Op: "elem", Args: []*Term{tm.Of(c.Args[1]), {Op: "unknown"}}}})
 				}
 				return
@@ -538,4 +544,30 @@ func replaceWithNil(t *Term, s string) *Term {
 func isSameInstr(in ssa.Instruction, v ssa.Value) bool {
 	x, ok := v.(ssa.Instruction)
 	return ok && x == in
+}
+
+// fieldHolding: the slice value v (a local, e.g. `params := make(...)`) is what this function stores
+// into field f of base (`&T{F: params}` or `x.F = params`); filling v fills base.F.
+func fieldHolding(fn *ssa.Function, v ssa.Value, base ssa.Value) *types.Var {
+	if _, ok := v.(*ssa.MakeSlice); !ok {
+		if sl, isSl := v.(*ssa.Slice); isSl {
+			v = sl.X
+			if _, ok := v.(*ssa.MakeSlice); !ok {
+				return nil
+			}
+		} else {
+			return nil
+		}
+	}
+	var out *types.Var
+	for _, ref := range *v.Referrers() {
+		st, ok := ref.(*ssa.Store)
+		if !ok || st.Val != v {
+			continue
+		}
+		if fa, ok := st.Addr.(*ssa.FieldAddr); ok && fa.X == base {
+			out = fieldOf(fa.X.Type(), fa.Field)
+		}
+	}
+	return out
 }
